@@ -1,6 +1,6 @@
 (* Extraction for the "c10" driver (C10 generators / tile_unit_cell).  ExtrOcamlBasic only:
    nat, positive, Z stay the extracted inductive types. *)
-From Koala Require Import Gen.TilingGen Model.Lattice Model.Tiling Model.Examples.
+From Koala Require Import Gen.TilingGen Model.Lattice Model.Tiling Model.Examples Gen.FixturesGen.
 Require Extraction.
 Require Import ExtrOcamlBasic.
 Extraction "model.ml"
@@ -12,4 +12,5 @@ Extraction "model.ml"
   honeycomb honeycomb_nv honeycomb_coloring hex_square_oct tri_non tri_non_coloring square
   single_plaquette higher_coordination n_ladder n_ladder_straight
   make_honeycomb_ujk flux_of
-  honeycomb_ok hso_ok tri_non_ok square_ok ladder_ok honeycomb_flux_sector_ok.
+  honeycomb_ok hso_ok tri_non_ok square_ok ladder_ok honeycomb_flux_sector_ok
+  fixture_by_id n_fixtures mkFx.
